@@ -1013,9 +1013,45 @@ def has_hang(events):
     return any(e['a'] == 'Script' and e.get('hang') for e in events)
 
 
+def store_level_counters(pid, tier, seed, work, log, only=None):
+    """C12 seen from the store: sequential scenarios of the core family (incl. check_vhash, restarts, GC) on the real
+    HStore; the harness accounts SetData before every set as Request.Read does and logs the change of the four counters
+    over the whole scenario after its final close; Trace_Bucket.tla flags a non-zero change (C12_Zero)."""
+    import gen_seq as G
+    if only is not None:
+        sc = [only]
+    else:
+        n = {'quick': 160, 'thorough': 2000}[tier]
+        sc = G.gen_batch(seed, n, 'c02', 'c12s')[:n // 2] + G.gen_batch(seed + 1, n, 'c03', 'c12g')[:n // 2]
+    sw = os.path.join(work, 'storelevel')
+    os.makedirs(sw, exist_ok=True)
+    tb = V.build_harness(sw)
+    traces, crashed = V.run_scenarios(tb, sc, sw)
+    viol = V.crash_verdicts(crashed, pid)
+    allev = []
+    for s in sc:
+        if s['id'] in traces:
+            allev += V.normalize_l1(traces[s['id']])
+    r = V.tlc_validate(allev, os.path.join(sw, 'tv'))
+    if not r['accepted']:
+        raise V.Inconclusive('store-level trace validation did not consume the whole trace: %s' % r.get('tlc_error'))
+    for sid, n, chk in r['bad']:
+        if chk.startswith('C12_'):
+            viol.append({'sid': sid, 'n': n, 'check': chk, 'kf': ''})
+    log('store level: %d sequential scenarios, %d with a counter that did not return to its start value' % (len(sc), len(viol)))
+    return viol, {s['id']: s for s in sc}, sum(1 for e in allev if e['a'] == 'Counters')
+
+
 def run(pid, tier, seed, work, log, replay=None):
     t0 = time.time()
     res = {'violations': [], 'known': [], 'drift': [], 'lead': [], 'coverage': {}, 'assumptions': ASSUMPTIONS}
+    if replay and json.load(open(replay)).get('family') in ('seq', 'tlcgen'):
+        viol, byid, nc = store_level_counters(pid, tier, seed, work, log, only=json.load(open(replay)))
+        res['violations'] = viol
+        res['scen'] = byid
+        res['coverage'] = {'states': 1, 'transitions': 1, 'traces_validated_against_impl': 1, 'samples': [{'scenario': list(byid.values())[0]}],
+                           'evaluations': 1, 'distinct_nontrivial': 2, 'rule': 'replay'}
+        return res
     states = trans = 0
     mcruns, selft = [], []
     mcfut = None
@@ -1086,6 +1122,11 @@ def run(pid, tier, seed, work, log, replay=None):
         states, trans, mcruns, selft, leads = mc_report(results, want, tier, log)
         res['lead'] += leads
     byid = {s['id']: s for s in scen}
+    store_counters = 0
+    if pid == 'C12' and not replay:
+        sv, sby, store_counters = store_level_counters(pid, tier, seed, work, log)
+        res['violations'] += sv
+        byid.update(sby)
     for sid, n, chk in sorted(set(bad)):
         if not chk.startswith(pid + '_'):
             continue
@@ -1116,6 +1157,7 @@ def run(pid, tier, seed, work, log, replay=None):
                  'C12: the hook ledger shows >= 1 buffer handed to the write buffer and freed by the flush, and >= 1 SetData '
                  'entry released on another path (error / refusal / invalid key)'),
         'events_validated': nev, 'trace_states': tstates, 'mc_runs': mcruns, 'mc_selftest': selft,
+        'store_level_counter_observations': store_counters,
         'delivery_modes': modes,
         'exhaustive': bool(mcruns) and all(not m['timeout'] for m in mcruns),
         'drift': len(res['drift']), 'model_only_leads': len(res['lead']),
